@@ -66,7 +66,7 @@ const bigDifficulty = "100000000000000000000" // 1e20: keeps the Quai reward pos
 
 func defaultCtx() CtxSpec {
 	return CtxSpec{Height: 1000, PTN: 2000000, GasLimit: 5000000, BaseFee: 1, Difficulty: bigDifficulty,
-		Rate: "100000000000000", Elig: allElig(), RLim: params.ETXRLimitMin, PLim: params.ETXPLimitMin, Scaling: 5.0}
+		Rate: "1000000000000000000000000", Elig: allElig(), RLim: params.ETXRLimitMin, PLim: params.ETXPLimitMin, Scaling: 5.0}
 }
 
 func hashN(n byte) []byte {
@@ -417,6 +417,15 @@ func (g *gen) ctx() CtxSpec {
 	if g.r.Chance(10) {
 		c.PLim = uint64(g.r.Intn(8)) * params.TxGas
 	}
+	if g.r.Chance(20) {
+		// a base fee that puts the fee floor of a plain transaction at a few qits
+		b := buildCtx(c)
+		perQit := new(bigInt).Quo(b.R, b.Q)
+		bf := new(bigInt).Quo(perQit, newBig(int64(4000+g.r.Intn(20000))))
+		if bf.IsUint64() && bf.Sign() > 0 {
+			c.BaseFee = bf.Uint64()
+		}
+	}
 	if g.r.Chance(8) {
 		e := allElig()
 		e[0] = byte(g.r.Intn(256))
@@ -680,6 +689,8 @@ func randomScenario(r *hlib.Rng, p *pool, kind string, rep *hlib.Report) *Scenar
 		if r.Chance(40) {
 			mutAt = r.Intn(ntx)
 		}
+		snapshot := append([]mirrorEntry{}, g.mirror...)
+		rejected := false
 		for i := 0; i < ntx; i++ {
 			t := g.validTx(blk.Ctx.Height, i == 0)
 			if t == nil {
@@ -694,12 +705,21 @@ func randomScenario(r *hlib.Rng, p *pool, kind string, rep *hlib.Report) *Scenar
 			}
 			t.Note = mk
 			rep.Count("gen:" + mk)
-			if mk == "valid" || mk == "none" {
+			if mk == "none" {
+				mk = "valid"
+				t.Note = mk
+			}
+			if mk == "valid" {
 				g.commitTx(t, idx, blk.Ctx.PTN)
+			} else if kind == "proc" {
+				rejected = true
 			}
 			blk.Txs = append(blk.Txs, *t)
 			prev = append(prev, *t)
 			idx++
+		}
+		if rejected {
+			g.mirror = snapshot // the block is expected to be rejected as a whole
 		}
 		s.Blocks = append(s.Blocks, blk)
 	}
